@@ -381,3 +381,66 @@ pub fn representable_verbatim(decoded: &[u8], style: Style) -> bool {
         }
     }
 }
+
+// mlb-quotes = 1*2quotation-mark      mll-quotes = 1*2apostrophe
+//
+// ml-basic-body = *mlb-content *( mlb-quotes 1*mlb-content ) [ mlb-quotes ]
+/// The quotes token at the start of `s` when `s` begins with a run of `q`:
+/// * inside the body (`at_end == false`) 1 or 2 quotes count only when *content* follows, i.e. the
+///   run is exactly 1 or 2 long and something other than `q` comes after it;
+/// * next to the closing delimiter (`at_end == true`) the run must be 3 delimiter quotes plus 1 or
+///   2 content quotes: a run of 4 gives 1, a run of 5 or more gives 2 (what follows the delimiter
+///   is not this rule's concern).
+pub fn ml_quotes_at_start(s: &[u8], q: u8, at_end: bool) -> Option<usize> {
+    let mut run = 0;
+    while run < s.len() && run < 6 && s[run] == q {
+        run += 1;
+    }
+    if at_end {
+        if run == 4 {
+            Some(1)
+        } else if run >= 5 {
+            Some(2)
+        } else {
+            None
+        }
+    } else if (run == 1 || run == 2) && s.len() > run {
+        Some(run)
+    } else {
+        None
+    }
+}
+
+// mlb-escaped-nl = escape ws newline *( wschar / newline )
+/// length of the longest `1*mlb-escaped-nl` at the start of `s` (0 if none)
+pub fn mlb_escaped_nl_at_start(s: &[u8]) -> usize {
+    let mut i = 0;
+    loop {
+        // escape ws newline
+        if !(i < s.len() && s[i] == 0x5C) {
+            return i;
+        }
+        let mut j = i + 1;
+        while j < s.len() && r_wschar(s[j]) {
+            j += 1;
+        }
+        let l = newline_at(s, j);
+        if l == 0 {
+            return i;
+        }
+        j += l;
+        // *( wschar / newline )
+        loop {
+            if j < s.len() && r_wschar(s[j]) {
+                j += 1;
+            } else {
+                let l = newline_at(s, j);
+                if l == 0 {
+                    break;
+                }
+                j += l;
+            }
+        }
+        i = j;
+    }
+}
